@@ -276,7 +276,10 @@ func init() {
 			}
 		}
 		runs := concRunBatch(c.Work, ws)
-		for i := range ws {
+		if len(runs) < len(ws) {
+			c.CountN("observed/not-run-after-repeated-hangs", len(ws)-len(runs))
+		}
+		for i := range runs {
 			w, r := ws[i], &runs[i]
 			concJudge(w, r)
 			overlap := r.Crashed == 0 && cOverlap(w.Ops, r.Hist)
